@@ -50,6 +50,14 @@ Theorem C15_keywords_later_wins : forall (e : env (T:=R)) (opts ovr : list strin
 Proof. exact keywords_later_wins_R. Qed.
 Print Assumptions C15_keywords_later_wins.
 
+(* LIKE_RE (search on the lower-cased geometry text) recognises the text that
+   cellcard.split gives for a card "N LIKE n BUT ...", for every digit string n *)
+Theorem C15_like_re_recognises : forall ds : string,
+  all_digits ds = true -> ds <> EmptyString ->
+  search_like (" like " ++ ds ++ " but") = Some (Z.of_N (parse_digits ds 0%N)).
+Proof. exact like_re_recognises. Qed.
+Print Assumptions C15_like_re_recognises.
+
 (* the LIKE loop: a LIKE card, at the end of a chain of any length in an acyclic
    table, is parsed as the explicit card "text of the card n stands for, then
    the BUT text" *)
